@@ -28,6 +28,12 @@ def gen_examples(rng, exotic=None):
         ex = (list(ex) if rng.random() < 0.4 else []) + rng.choice([
             ['\u0661\u0662', '\u0663\u0664'], ['a\u0663', 'b\u0664', 'c\u0665'], ['\u0663', '\u0664', '\uff15'],
             ['x-\u0661\u0662', 'y-\u0663\u0664'], ['\u0967\u0968\u0969', '\u096a\u096b\u096c'], ['AB\u0661', 'CD\u0662', 'EF3']])
+    if rng.random() < 0.05:
+        # many examples of one shape in ASCII digits and one or two in other decimal digits (under sampling the odd ones
+        # are easily left out of the working set)
+        ex = ['%02d' % rng.randint(0, 99) for _ in range(rng.randint(12, 30))] + \
+             [rng.choice(['\u0663\u0664', '\u0661\u0669', '\uff11\uff12', '\u0967\u0968']) for _ in range(rng.randint(1, 2))]
+        rng.shuffle(ex)
     if rng.random() < 0.08:
         # examples that are nothing but white space (what strip and remove_empties are about)
         ex = list(ex) + [rng.choice(['   ', '\t', ' ', '  ', ' \t ', '\n']) for _ in range(rng.randint(1, 3))]
@@ -80,8 +86,13 @@ def gen_opts(rng):
 def gen_size(rng):
     if rng.random() < 0.65:
         return None
+    if rng.random() < 0.25:
+        # no sampling, only the cap on remembered strings per fragment (0 and 1 included)
+        return {'do_all': 100000, 'do_all_exceptions': 4000, 'max_sampled_attempts': 2, 'n_per_length': 64,
+                'max_strings_in_group': rng.choice([0, 0, 1, 2, 3])}
     return {'do_all': rng.randint(0, 6), 'do_all_exceptions': rng.randint(0, 4),
-            'max_sampled_attempts': rng.randint(0, 2), 'n_per_length': rng.choice([1, 2, 64])}
+            'max_sampled_attempts': rng.randint(0, 2), 'n_per_length': rng.choice([1, 2, 64]),
+            'max_strings_in_group': rng.choice([10, 10, 10, 0, 1, 2])}
 
 
 def as_input(examples, form):
@@ -153,7 +164,7 @@ def char_table(strings, ascii_digits=False):
     return [[c, _W.match(c) is not None, D.match(c) is not None, _S.match(c) is not None] for c in chars]
 
 
-def model_extract_op(examples, opts, form='list'):
+def model_extract_op(examples, opts, form='list', size=None):
     """the rx.extract op for a case without sampling"""
     if form == 'dict':
         d = as_input(examples, 'dict')
@@ -163,7 +174,8 @@ def model_extract_op(examples, opts, form='list'):
     o = {'strip': bool(opts.get('strip')), 'remove_empties': bool(opts.get('remove_empties')),
          'vlf': bool(opts.get('variableLengthFrags')), 'extras': opts.get('extra_letters') or '',
          'tag': bool(opts.get('tag')), 'dialect': DIALECT_ID[opts.get('dialect', 'portable')],
-         'max_patterns': opts.get('max_patterns'), 'min_strings': opts.get('min_strings_per_pattern', 1)}
+         'max_patterns': opts.get('max_patterns'), 'min_strings': opts.get('min_strings_per_pattern', 1),
+         'max_strings_in_group': (size or {}).get('max_strings_in_group', 10)}
     return {'op': 'rx.extract', 'table': char_table(examples, ascii_digits=o['dialect'] != 0), 'opts': o, 'items': items}
 
 
@@ -235,7 +247,7 @@ def modelled(examples, opts):
 
 
 def model_sampled_op(examples, opts, size, picks, form='list'):
-    op = model_extract_op(examples, opts, form)
+    op = model_extract_op(examples, opts, form, size)
     sz = rexpy.Size(**size)
     op['op'] = 'rx.extract_sampled'
     op['cfg'] = {'do_all': sz.do_all, 'do_all_exceptions': sz.do_all_exceptions, 'max_attempts': sz.max_sampled_attempts}
